@@ -4,7 +4,7 @@ from z3 import And, Function, Int, IntSort, Real, RealSort
 
 from ..contracts.events import MOMENTS, EventConstruction
 from ..contracts.loss_moments import LossEval
-from ..contracts.moments_matrix import Bound, Gamma, UMatrixLoop
+from ..contracts.moments_matrix import Bound, Gamma, LoadDataPrologue, UMatrixLoop
 from ..pyvc import solve, verify
 
 
@@ -52,6 +52,9 @@ def items(rep):
             (Gamma(), [("sign_dropped", verify.replace_expr("-self.U.T.dot(pred) / self.total_samples", "self.U.T.dot(pred) / self.total_samples")),
                        ("base_utility_from_the_wrong_column", verify.replace_expr("self.utilities[:, 0]", "self.utilities[:, 1]"))]),
             (Bound(), []),
+            (LoadDataPrologue(False), [("group_probabilities_without_the_event", verify.replace_expr("self.tags.groupby([_EVENT, _GROUP_ID])", "self.tags.groupby([_GROUP_ID])")),
+                                       ("only_plus_constraints", verify.replace_expr("keys=['+', '-']", "keys=['+', '+']") if False else verify.replace_expr("['+', '-']", "['+', '+']"))]),
+            (LoadDataPrologue(True), []),
             *[(EventConstruction(m, c), _event_canaries(m, c)) for m in MOMENTS for c in (False, True)],
             (LossEval("SquareLoss"), [("prediction_not_clipped", verify.replace_expr("np.clip(y_pred, self.min_val, self.max_val)", "y_pred"))]),
             (LossEval("AbsoluteLoss"), [("signed_difference", verify.replace_expr("np.abs(np.clip(y_true, self.min_val, self.max_val) - np.clip(y_pred, self.min_val, self.max_val))",
